@@ -54,21 +54,51 @@ def make_overlay(tmp):
     return path
 
 
+ZZSYNC_IMPORT = 'zzsync "github.com/dadrus/heimdall/internal/zzverif/zzsync"'
+
+
+def _add_import(code, imp):
+    """add an import line to Go source (block or single-line import form)"""
+    m = re.search(r"^import \($", code, re.M)
+    if m:
+        return code[:m.end()] + "\n\t" + imp + code[m.end():]
+    m = re.search(r"^package \w+.*$", code, re.M)
+    return code[:m.end()] + "\n\nimport " + imp + code[m.end():]
+
+
 def jitter_copy(tmp, relpath):
-    """a copy of /repo/<relpath> in which sync.Mutex / sync.RWMutex are replaced by the jitter-adding zzsync types;
-    returns an overlay entry {repo path: copy}, or {} if the file uses other parts of package sync"""
+    """a copy of /repo/<relpath> in which sync.Mutex / sync.RWMutex are replaced by the jitter-adding zzsync types
+    (other parts of package sync stay as they are); returns an overlay entry {repo path: copy}, or {} if the file
+    declares no such mutex"""
     src = os.path.join(REPO, relpath)
     with open(src) as fh:
         code = fh.read()
-    if not re.search(r'^\s*"sync"\s*$', code, re.M):
+    if not re.search(r"\bsync\.(RW)?Mutex\b", code):
         return {}
-    other = re.findall(r"\bsync\.(\w+)", code)
-    if any(o not in ("Mutex", "RWMutex") for o in other):
-        return {}
-    code = re.sub(r'^(\s*)"sync"\s*$', r'\1zzsync "github.com/dadrus/heimdall/internal/zzverif/zzsync"', code, flags=re.M)
-    code = code.replace("sync.Mutex", "zzsync.Mutex").replace("sync.RWMutex", "zzsync.RWMutex")
-    code = code.replace("zzzzsync", "zzsync")
+    code = re.sub(r"\bsync\.Mutex\b", "zzsync.Mutex", code)
+    code = re.sub(r"\bsync\.RWMutex\b", "zzsync.RWMutex", code)
+    if not re.search(r"(?<![\w.])sync\.\w", code):
+        code = re.sub(r'^\s*"sync"\s*\n', "", code, flags=re.M)
+        code = re.sub(r'^import "sync"\s*\n', "", code, flags=re.M)
+    code = _add_import(code, ZZSYNC_IMPORT)
     dst = os.path.join(tmp, "jitter_" + relpath.replace("/", "__"))
+    with open(dst, "w") as fh:
+        fh.write(code)
+    return {src: dst}
+
+
+def yield_copy(tmp, relpath, funcs):
+    """a copy of /repo/<relpath> with a scheduling point (zzsync.Yield) at the start of the named functions / methods;
+    returns an overlay entry, or {} if none of them is found"""
+    src = os.path.join(REPO, relpath)
+    with open(src) as fh:
+        code = fh.read()
+    pat = re.compile(r"^func (\([^)]*\) )?(%s)\([^{]*\{[ \t]*\n" % "|".join(map(re.escape, funcs)), re.M)
+    code, n = pat.subn(lambda m: m.group(0) + "\tzzsync.Yield()\n", code)
+    if n == 0:
+        return {}
+    code = _add_import(code, ZZSYNC_IMPORT)
+    dst = os.path.join(tmp, "yield_" + relpath.replace("/", "__"))
     with open(dst, "w") as fh:
         fh.write(code)
     return {src: dst}
@@ -143,15 +173,24 @@ def run_cases(cmd, cases, timeout=600, cwd=None, env=None, chunk=None):
 # Lean side
 
 class LeanLock:
+    """exclusive lock on the Lean project (re-entrant within one process)"""
+    depth = 0
+    fh = None
+
     def __enter__(self):
-        os.makedirs(os.path.join(LEAN, ".lake"), exist_ok=True)
-        self.fh = open(os.path.join(LEAN, ".lake", "check.lock"), "w")
-        fcntl.flock(self.fh, fcntl.LOCK_EX)
+        if LeanLock.depth == 0:
+            os.makedirs(os.path.join(LEAN, ".lake"), exist_ok=True)
+            LeanLock.fh = open(os.path.join(LEAN, ".lake", "check.lock"), "w")
+            fcntl.flock(LeanLock.fh, fcntl.LOCK_EX)
+        LeanLock.depth += 1
         return self
 
     def __exit__(self, *a):
-        fcntl.flock(self.fh, fcntl.LOCK_UN)
-        self.fh.close()
+        LeanLock.depth -= 1
+        if LeanLock.depth == 0:
+            fcntl.flock(LeanLock.fh, fcntl.LOCK_UN)
+            LeanLock.fh.close()
+            LeanLock.fh = None
 
 
 def lake(args, timeout=3000):
